@@ -1,18 +1,18 @@
 SPECIFICATION Spec
 CONSTANTS
-  Specs = {"r", "a", "b", "d", "j", "g", "m"}
-  WithItems = {"r", "a", "b"}
-  Big = {"r"}
+  Specs = {"h", "p", "q", "r", "m"}
+  WithItems = {"h", "q", "r"}
+  Big = {"h"}
   MaxRoot = 2
   MaxOther = 1
   Forms = {"static", "dynamic", "type"}
-  Targets = {"a", "b", "j", "g", "m"}
-  Sp1 = {"j"}
+  Targets = {"p", "q", "r", "m", "h"}
+  Sp1 = {"r"}
   MayMiss = {"m"}
   MayRedirect = {}
   MayErr = {}
-  RootChoices <- Roots_r
-  SelfTypes <- ST_bd
+  RootChoices <- Roots_h
+  SelfTypes <- ST_none
   TsTypes = {}
   JsonAttr = FALSE
   Emit = TRUE
